@@ -3,7 +3,7 @@ import json, os, sys
 from fractions import Fraction as F
 from lib import *
 import searchcommon as sc
-from configs import cfg, steep_cfg
+from configs import cfg, steep_cfg, rowwise_small_cfg
 
 TOL = 1e-3     # sizing tolerance named by the properties
 
